@@ -6,7 +6,8 @@ import math
 import numpy as np
 from hypothesis import strategies as st
 
-from ..harness import Sub, Violation, Inconclusive, crash_is_violation
+from .. import gen
+from ..harness import Sub, Violation, Inconclusive, crash_is_violation, run_world
 from ..oracles import bspl, advect
 
 PROPERTY = "C12"
@@ -22,8 +23,11 @@ RULE = ("Hypothesis-generated cases: ntheta 6-12 (periodic), nr 6-12 (clamped), 
         "constant phi => f unchanged, phi = omega r^2/2 => rigid rotation by omega dt/B0 (np.roll for whole cells); "
         "explicit vs implicit differ with observed order >= 2.5 in dt; the implicit iteration needs <= 60 sweeps in the "
         "contraction regime (counted by wrapping the evaluation kernel).  Non-trivial = phi and f not constant and some "
-        "foot displaced by more than a cell; distinct = distinct case digest.")
-ASSUMPTIONS = ["spline degree >= 2 in both directions (continuous drift; degree 1 puts every node on a derivative jump)",
+        "foot displaced by more than a cell; distinct = distinct case digest.  (grid) PoloidalAdvection.gridStep and "
+        "gridStep_SplinesUnchanged on the distributed distribution function of simulated worlds (poloidal layout, "
+        "potential different on every z plane) vs the per-plane reference with each plane's own global (v, z); "
+        "non-trivial = >= 2 z planes on some rank.")
+ASSUMPTIONS = ["simulated MPI for the grid-level sub-check", "spline degree >= 2 in both directions (continuous drift; degree 1 puts every node on a derivative jump)",
                "nodes whose foot is within rounding distance of the radial boundary are excluded (counted in labels)",
                "termination is claimed only in the contraction regime |dt|/2 Lip(a) <= 0.5 (estimated numerically)",
                "phi is passed as a Spline2D filled by pygyro's own 2-D interpolator; the reference reads the same "
@@ -414,8 +418,68 @@ def reuse_pred(c):
                        "predictor-left-domain" if out_seen else "predictor-always-inside"], "evals": len(c["stages"])}
 
 
+# ------------------------------------------------------------------------------------------------
+# grid level: every (v, z) plane owned by a rank is advected with the potential of its own z plane
+# ------------------------------------------------------------------------------------------------
+@st.composite
+def grid_cases(draw, tier):
+    from .. import sim
+    cfg = draw(sim.sim_config(tier))
+    maxP = 6 if tier == "quick" else 12
+    grids = sim.admissible_grids(cfg["npts"], maxP)
+    g = draw(st.sampled_from(grids))
+    return {"cfg": cfg, "nprocs": g, "seed": draw(st.integers(0, 2 ** 16)), "phiamp": draw(st.sampled_from([1.0, 3.0, 10.0])),
+            "schedule": draw(gen.schedules(8))}
+
+
+def _grid_rank(ctx, c):
+    from .. import sim
+    rs = sim.RankSim(ctx.comm, c["cfg"], c["nprocs"], diagnostics=False)
+    f = rs.f
+    eta = f.eta_grid
+    F = sim.equilibrium_like_field(c["cfg"], eta, c["seed"])
+    Phi = c["phiamp"] * sim.smooth_noise_field(tuple(len(e) for e in eta[:3]), c["seed"] + 1)
+    f.setLayout('poloidal')
+    sim.fill(f, F)
+    php = rs.new_phi('poloidal')
+    sim.fill(php, Phi.astype(complex))
+    rs.polAdv.gridStep(f, php, rs.halfStep)
+    out = {"step": sim.piece(f), "planes": int(f.getLayout('poloidal').shape[1])}
+    sim.fill(f, F)
+    rs.polAdv.gridStep_SplinesUnchanged(f, rs.halfStep)
+    out["unchanged"] = sim.piece(f)
+    return out
+
+
+def grid_pred(c):
+    from .. import sim, gridref
+    from ..simmpi import core
+    cfg = c["cfg"]
+    P = c["nprocs"][0] * c["nprocs"][1]
+    res, w = run_world(P, _grid_rank, (c,), schedule=c["schedule"], key="C12:grid")
+    g, consts = sim.setup_distrib(core.COMM_WORLD, cfg, "v_parallel", [1, 1], save=False)
+    eta = g.eta_grid
+    ref = gridref.GridRef(eta, [g.getSpline(i) for i in range(4)], consts)
+    F = sim.equilibrium_like_field(cfg, eta, c["seed"])
+    Phi = c["phiamp"] * sim.smooth_noise_field(tuple(len(e) for e in eta[:3]), c["seed"] + 1)
+    want, ok = ref.poloidal(F, Phi, consts.dt * 0.5)
+    scale = float(np.abs(F).max())
+    for name in ("step", "unchanged"):
+        got = sim.assemble([r[name] for r in res], tuple(cfg["npts"]), name)
+        err = np.abs(got - want)
+        bad = ok & ~(err <= 1e-8 * scale)
+        if bad.any():
+            idx = tuple(int(x) for x in np.argwhere(bad)[0])
+            raise Violation("C12:grid:" + name, "process grid %s: plane (z=%d, v=%d) node (r=%d, theta=%d) is %r; advecting that plane "
+                            "with the potential of its own z gives %r (|diff| %.3e, scale %.3e; %d nodes)"
+                            % (c["nprocs"], idx[2], idx[3], idx[0], idx[1], got[idx], want[idx], float(err[idx]), scale, int(bad.sum())))
+    planes = max(r["planes"] for r in res)
+    return {"nontrivial": planes >= 2, "labels": ["P=%d" % P, "planes>=2" if planes >= 2 else "one-plane"], "evals": 2}
+
+
 SUBS = {"step": Sub(predicate, strategy=cases), "exact": Sub(exact_pred, strategy=exact_cases),
-        "order": Sub(order_pred, strategy=order_cases), "reuse": Sub(reuse_pred, strategy=reuse_cases)}
+        "order": Sub(order_pred, strategy=order_cases), "reuse": Sub(reuse_pred, strategy=reuse_cases),
+        "grid": Sub(grid_pred, strategy=grid_cases)}
 
 
 def jobs(tier):
@@ -423,4 +487,12 @@ def jobs(tier):
     return ([{"sub": "step", "n": n1, "shard": i} for i in range(14)] +
             [{"sub": "exact", "n": n2, "shard": i} for i in range(4)] +
             [{"sub": "order", "n": n3, "shard": i} for i in range(2)] +
-            [{"sub": "reuse", "n": n4, "shard": i} for i in range(4)])
+            [{"sub": "reuse", "n": n4, "shard": i} for i in range(4)] +
+            [{"sub": "grid", "n": 3 if tier == "quick" else 150, "shard": i} for i in range(6)])
+
+
+def init_worker(tier):
+    import warnings
+    from .. import sim
+    warnings.simplefilter("ignore")
+    sim.install()
